@@ -146,8 +146,12 @@ func (b *Builder) Bool(v bool) *Term {
 	}
 	return b.mk(OConst, SBool, k, 0, 0, "")
 }
-func (b *Builder) IntConst(v *big.Int) *Term  { return b.mk(OConst, SInt, new(big.Int).Set(v), 0, 0, "") }
-func (b *Builder) RealConst(v *big.Int) *Term { return b.mk(OConst, SReal, new(big.Int).Set(v), 0, 0, "") }
+func (b *Builder) IntConst(v *big.Int) *Term {
+	return b.mk(OConst, SInt, new(big.Int).Set(v), 0, 0, "")
+}
+func (b *Builder) RealConst(v *big.Int) *Term {
+	return b.mk(OConst, SReal, new(big.Int).Set(v), 0, 0, "")
+}
 func (b *Builder) Var(name string, s Sort) *Term {
 	return b.mk(OVar, s, nil, 0, 0, name)
 }
